@@ -624,6 +624,12 @@ def dispatch (env : Env) (s : St) (c : Cmd) : St × Bool :=
   | none => (s, pre c)
   | some t => let r := loc env c (look s t); (put s t r.1, r.2)
 
+/-- `Server::notify_proxys` (lib/src/server.rs) for a configuration verb, seen from the worker's own
+    `ConfigState`: the command is dispatched on it first and the outcome ignored; what is answered
+    is the verdict of the proxies (`proxyOk`, a parameter: the proxies are not modelled). -/
+def workerNotify (env : Env) (s : St) (c : Cmd) (proxyOk : Bool) : St × Bool :=
+  ((dispatch env s c).1, proxyOk)
+
 def run (env : Env) (s : St) (cs : List Cmd) : St := cs.foldl (fun s c => (dispatch env s c).1) s
 
 /-- all results of replaying `cs` are `Ok` -/
